@@ -1181,6 +1181,13 @@ Definition disconnect_last (t : list tev) : bool :=
 (* "no connection is left behind": when ReadSlices reports ErrClosed, every connection this client
    instance dialed (since the last successful adoption) has been closed.  State: the number of the
    first connection of the current instance. *)
+(* the environment itself said that the connection is closed (a write or read answered with the
+   closed-connection error): the client does not close it again *)
+Definition reported_closed (t : list tev) (c : N) : bool :=
+  existsb (fun e => match e with
+                    | TEv _ (QWrite c' _) (AWr _ WClosed) => c' =? c
+                    | TEv _ (QRead c' _ _) (ARd RClosed) => c' =? c
+                    | _ => false end) t.
 Definition conns_closed_at_end (t : list tev) : bool :=
   fold_trace (fun (s : N) (m : list (N * list N)) (e : tev) =>
     match e with
@@ -1188,7 +1195,7 @@ Definition conns_closed_at_end (t : list tev) : bool :=
     | TRet i OpRead (RetErr er) _ _ _ =>
       if has_bit er 2 then
         let before := upto_call i t in
-        (s, forallb (fun c => (c <? s) || closed_conn before c) (upto (N.to_nat (conn_count before))))
+        (s, forallb (fun c => (c <? s) || closed_conn before c || reported_closed before c) (upto (N.to_nat (conn_count before))))
       else (s, true)
     | _ => (s, true)
     end) 0 [] t.
